@@ -24,8 +24,6 @@ impl SecureChannel {
     pub fn secure_channel_id(&self) -> (r: u32) ensures r == self.secure_channel_id { self.secure_channel_id }
 }
 // the header fields validate_chunks looks at, as ChunkInfo::new decodes them from a chunk's bytes
-pub struct MessageChunkHeader { pub secure_channel_id: u32 }
-pub struct SequenceHeader { pub sequence_number: u32, pub request_id: u32 }
 pub struct ChunkInfo { pub message_header: MessageChunkHeader, pub sequence_header: SequenceHeader }
 pub struct MessageChunk { pub data: Vec<u8> }
 // (channel id, sequence number, request id) of a chunk, or None when its headers do not decode: a function of its bytes
@@ -107,6 +105,9 @@ def build(manifest):
                 decreases chunks@.len() - i,''')
     a = Asm()
     a.add('use vstd::prelude::*;\nverus! {\nglobal size_of usize == 8;\n', 'prelude', 'env')
+    mc = Src('core/comms/message_chunk.rs', manifest)
+    sh = Src('core/comms/security_header.rs', manifest)
+    a.add(norm_vis('\n'.join([mc.enum('MessageChunkType'), mc.enum('MessageIsFinalType'), mc.struct('MessageChunkHeader'), sh.struct('SequenceHeader')])), 'types', 'env')
     a.add(ENV, 'env', 'env')
     a.add('pub struct Chunker;\nimpl Chunker {')
     a.add(f, 'validate_chunks', 'fn')
